@@ -2,11 +2,13 @@
    recorded from the real graph.Build + instrumented components.  Imports Model.v only.
 
    case  = (wcfg, wobs)
-   wcfg  = (pipelines, connectors)
+   wcfg  = (pipelines, (connectors, noprof))      noprof = (kind 0/1/2, id) of plain components from stable factories
            pipeline  = ((signal, name), (receivers, (processors, exporters)))   ids are nat
-           connector = (id, (factory is an xconnector.Factory, requested (exporter signal, receiver signal) pairs))
-   wobs  = (validate_ok, (class, (detail, (created, (started, (deliveries, (deliveries_ro, (routers, (refusing, (deliveries_f, errors)))))))))
-           class      0 built | 1 "connector ... not used in any supported ..." | 2 "cycle detected" | 3 panic
+           connector = (id, Some (factory is an xconnector.Factory, requested (exporter signal, receiver signal) pairs))
+                       | (id, None)   no factory registered for the connector's type
+   wobs  = (validate_ok, (class, (detail, (created, (started, (deliveries, (deliveries_ro, (routers, (refusing, (deliveries_f, (errors, nil_host_rejected))))))))))
+           class      0 built | 1 "connector ... not used in any supported ..." / "connector factory not available"
+                      | 2 "cycle detected" | 3 panic | 5 "failed to create ... telemetry type is not supported"
            detail     class 1: [(side 0 exporter / 1 receiver, (signal, (0, connector id)))]
                       class 2: the reported cycle (processor / connector nodes)
            created    node keys of the factory Create calls        (multiset)
@@ -23,10 +25,10 @@ From Verif Require Import Common.Base C09.Model.
 
 Definition wnode := (nat * (nat * (nat * nat)))%type.
 Definition wpipe := ((nat * nat) * (list nat * (list nat * list nat)))%type.
-Definition wcfg := (list wpipe * list (nat * (bool * list (nat * nat))))%type.
+Definition wcfg := (list wpipe * (list (nat * option (bool * list (nat * nat))) * list (nat * nat)))%type.
 Definition wdeliv := (wnode * list (wnode * list wnode))%type.
 Definition wrouter := (wnode * list (nat * nat))%type.
-Definition wobs := (bool * (nat * (list wnode * (list wnode * (list wnode * (list wdeliv * (list wdeliv * (list wrouter * (list wnode * (list wdeliv * list (wnode * bool)))))))))))%type.
+Definition wobs := (bool * (nat * (list wnode * (list wnode * (list wnode * (list wdeliv * (list wdeliv * (list wrouter * (list wnode * (list wdeliv * (list (wnode * bool) * bool)))))))))))%type.
 
 Definition node_of_w (w : wnode) : node :=
   let '(k, (a, (b, i))) := w in
@@ -35,7 +37,7 @@ Definition node_of_w (w : wnode) : node :=
   end.
 
 Definition cfg_of_w (w : wcfg) : config :=
-  mkC (map (fun p => mkP (fst p) (fst (snd p)) (fst (snd (snd p))) (snd (snd (snd p)))) (fst w)) (snd w).
+  mkC (map (fun p => mkP (fst p) (fst (snd p)) (fst (snd (snd p))) (snd (snd (snd p)))) (fst w)) (fst (snd w)) (snd (snd w)).
 
 Fixpoint remove1 {A} (eqb : A -> A -> bool) (x : A) (l : list A) : option (list A) :=
   match l with
@@ -54,16 +56,17 @@ Definition deliv_eqb (a b : node * list node) : bool :=
   node_eqb (fst a) (fst b) && list_eqb node_eqb (snd a) (snd b).
 
 Definition cerr_of_w (w : wnode) : cerr :=
-  let '(side, (s, (_, k))) := w in match side with 0 => ErrExp k s | _ => ErrRecv k s end.
+  let '(side, (s, (_, k))) := w in match side with 0 => ErrExp k s | 1 => ErrRecv k s | _ => ErrNoFactory k end.
 
 Definition cerr_eqb (a b : cerr) : bool :=
   match a, b with
   | ErrExp k s, ErrExp k' s' | ErrRecv k s, ErrRecv k' s' => Nat.eqb k k' && Nat.eqb s s'
+  | ErrNoFactory k, ErrNoFactory k' => Nat.eqb k k'
   | _, _ => false
   end.
 
 Definition class_of (r : result) : nat :=
-  match r with Ok _ => 0 | Err EUnsupported => 1 | Err ECycle => 2 | Err EPanic => 3 end.
+  match r with Ok _ => 0 | Err EUnsupported => 1 | Err ECycle => 2 | Err EPanic => 3 | Err EFactory => 5 end.
 
 Definition is_recv (n : node) : bool := match n with Recv _ _ => true | _ => false end.
 
@@ -74,7 +77,7 @@ Definition model_routers (g : graph) : list (node * list pid) :=
   map (fun n => (n, router_pids g n)) (filter is_connector (g_nodes g)).
 
 Definition check_case (cs : wcfg * wobs) : bool :=
-  let '(wc, (vok, (cls, (detail, (wcreated, (wstarted, (wdel, (wdelro, (wrt, (wF, (wdelf, werr))))))))))) := cs in
+  let '(wc, (vok, (cls, (detail, (wcreated, (wstarted, (wdel, (wdelro, (wrt, (wF, (wdelf, (werr, nilrej)))))))))))) := cs in
   let c := cfg_of_w wc in
   let r := build c in
   let crt := map node_of_w wcreated in
@@ -88,7 +91,8 @@ Definition check_case (cs : wcfg * wobs) : bool :=
   match r with
   | Ok g =>
       perm_eqb node_eqb (created g) crt &&
-      perm_eqb node_eqb (created g) std &&
+      option_eqb (perm_eqb node_eqb) (start_all true g) (Some std) &&
+      Bool.eqb (match start_all false g with None => true | Some _ => false end) nilrej &&
       perm_eqb (fun a b => node_eqb (fst a) (fst b) && perm_eqb deliv_eqb (snd a) (snd b)) (model_deliveries g) del &&
       perm_eqb (fun a b => node_eqb (fst a) (fst b) && perm_eqb deliv_eqb (snd a) (snd b)) (model_deliveries g) delro &&
       perm_eqb (fun a b => node_eqb (fst a) (fst b) && perm_eqb deliv_eqb (snd a) (snd b))
@@ -99,7 +103,12 @@ Definition check_case (cs : wcfg * wobs) : bool :=
       perm_eqb (fun a b => node_eqb (fst a) (fst b) && perm_eqb pid_eqb (snd a) (snd b)) (model_routers g)
                (map (fun r => (node_of_w (fst r), snd r)) wrt)
   | Err e =>
-      is_nil crt && is_nil std && is_nil del && is_nil delro && is_nil wrt && is_nil wdelf && is_nil werr &&
+      (match e with
+       | EFactory => (* the factory calls before the refusal: distinct component nodes of the graph, none refusing *)
+           list_eqb node_eqb (create_until c crt) crt && list_eqb node_eqb (dedup node_eqb crt) crt &&
+           forallb (fun n => existsb (node_eqb n) (filter is_component (nodes_of c))) crt
+       | _ => is_nil crt
+       end) && is_nil std && is_nil del && is_nil delro && is_nil wrt && is_nil wdelf && is_nil werr && negb nilrej &&
       match e with
       | EUnsupported =>
           match detail with
@@ -108,6 +117,11 @@ Definition check_case (cs : wcfg * wobs) : bool :=
           end
       | ECycle => check_cycle_report c (map node_of_w detail)
       | EPanic => true
+      | EFactory =>
+          match detail with
+          | [w] => cannot_create c (node_of_w w) && existsb (node_eqb (node_of_w w)) (filter is_component (nodes_of c))
+          | _ => false
+          end
       end
   end.
 
